@@ -6,11 +6,12 @@
    and that every continuation of the history then observes exactly what it would have observed
    had the rejected call never been made.  ONLY statements closed by `exact`. *)
 From Coq Require Import ZArith List Bool.
+Open Scope Z_scope.
 From Mesa Require Common.ListX Generated.Tables.
 From Mesa Require Model.CellSpace Proofs.CellSpaceProofs Proofs.CellSpaceRefine.
 From Mesa Require Model.LegacyGrid Proofs.LegacyGridProofs Proofs.LegacyGridSim.
 From Mesa Require Model.ContGeom Model.ContLegacy Model.ContExp Proofs.ContExpProofs Proofs.ContLegacyProofs.
-From Mesa Require Model.PropLayer Proofs.PropLayerProofs.
+From Mesa Require Model.PropLayer Proofs.PropLayerProofs Proofs.PropLayerEmpty.
 From Mesa Require Model.DataCollector Proofs.DataCollectorProofs.
 From Mesa Require Model.Devs Model.DevsSpec Proofs.DevsProofs Proofs.DevsAtomicProofs.
 From Mesa Require Model.Signals Proofs.SignalsProofs.
@@ -72,16 +73,26 @@ Print Assumptions ContinuousSites.C18_continuous_exp_continue.
 (* ---- property layers (both implementations): clashing / mis-shaped add, remove of a missing layer,
         set/modify out of bounds or with an invalid operation *)
 Module PropertyLayerSites.
-  Import Mesa.Model.PropLayer Mesa.Proofs.PropLayerProofs.
+  Import Mesa.Model.PropLayer Mesa.Proofs.PropLayerProofs Mesa.Proofs.PropLayerEmpty.
+  (* no capacity limit (cap 0 = unlimited) or a legacy grid: every rejection, in any reachable state *)
   Theorem C18_proplayer : forall st o st' k,
-    reachable st -> step st o = (st', RErr k) -> st' = st.
+    reachable st -> (s_discrete st = true -> s_cap st = 0) -> step st o = (st', RErr k) -> st' = st.
   Proof. exact atomic_reachable. Qed.
   Theorem C18_proplayer_continue : forall st o st' k ops,
-    reachable st -> step st o = (st', RErr k) -> run_ops st' ops = run_ops st ops.
+    reachable st -> (s_discrete st = true -> s_cap st = 0) -> step st o = (st', RErr k) ->
+    run_ops st' ops = run_ops st ops.
   Proof. exact atomic_continue. Qed.
+  (* any capacity >= 0, histories that do not themselves write the "empty" layer: every rejection, "Cell is full"
+     included (its `self.empty = False` before the raise is a no-op because a full cell is not empty) *)
+  Theorem C18_proplayer_full_cell : forall d multi cap dims ops o st' k,
+    (d = true -> 0 <= cap /\ clean ops = true) ->
+    let st := run_state (init d multi cap dims) ops in
+    step st o = (st', RErr k) -> st' = st.
+  Proof. exact atomic_clean. Qed.
 End PropertyLayerSites.
 Print Assumptions PropertyLayerSites.C18_proplayer.
 Print Assumptions PropertyLayerSites.C18_proplayer_continue.
+Print Assumptions PropertyLayerSites.C18_proplayer_full_cell.
 
 (* ---- DataCollector tables: add_table_row with a missing column or to an unknown table *)
 Module DataCollectorSites.
